@@ -629,7 +629,8 @@ const KITTY_MAX_DIM: u64 = 65536;
 
 /// Identification for image data
 fn kitty_image_id(img: &Image) -> u64 {
-    img.hash() % KITTY_MAX_ID
+    // zero is reserved and means that id is not specified
+    img.hash() % KITTY_MAX_ID + 1
 }
 
 /// Identification of particular placement of the image
@@ -638,13 +639,16 @@ fn kitty_image_id(img: &Image) -> u64 {
 /// but in particular implementation it is bound to a physical position on
 /// the screen.
 fn kitty_placement_id(pos: Position) -> u64 {
-    (pos.row as u64 % KITTY_MAX_DIM) + (pos.col as u64 % KITTY_MAX_DIM) * KITTY_MAX_DIM
+    // zero is reserved and means that placement id is not specified
+    let index = (pos.row as u64 % KITTY_MAX_DIM) + (pos.col as u64 % KITTY_MAX_DIM) * KITTY_MAX_DIM;
+    index % KITTY_MAX_ID + 1
 }
 
 fn kitty_placement_to_pos(placement_id: u64) -> Position {
+    let index = placement_id.saturating_sub(1);
     Position {
-        col: (placement_id / KITTY_MAX_DIM) as usize,
-        row: (placement_id % KITTY_MAX_DIM) as usize,
+        col: (index / KITTY_MAX_DIM) as usize,
+        row: (index % KITTY_MAX_DIM) as usize,
     }
 }
 
@@ -660,6 +664,10 @@ impl ImageHandler for KittyImageHandler {
             ?img,
             "[KittyImageHandler.draw]"
         );
+        if img.is_empty() {
+            // nothing to transmit, and placement must refer to a transmitted image
+            return Ok(());
+        }
         let img_id = kitty_image_id(img);
 
         // q   - suppress response from the terminal 1 - OK only, 2 - All.
